@@ -107,6 +107,7 @@ def c11(ctx):
         prog = _prog(ctx, cfg)
         lab = _label(cfg)
         out.append((lab, R.rule_E1(ctx, prog, lab)))
+        out.append((lab, R.rule_E5(ctx, prog, lab)))
         out.append((lab, CT.rule_F1(ctx, prog, lab)))
         out.append((lab, AL.rule_D0(ctx, prog, lab)))
         out.append((lab, AL.rule_D1(ctx, prog, lab)))
@@ -175,13 +176,14 @@ def c17(ctx):
                    '(kernel contracts re-check the counter initialisation and the final masked/revert store).'),
       not_decided='the swap arithmetic itself and the permutation order (F4/B1 rules are added separately)')
 def c13(ctx):
-    from . import masks as M, families as B
+    from . import masks as M, families as B, contracts as CT
     out = []
     for cfg in _configs(ctx, extra=[dict(frontend.host_config(), sse2=0)]):
         prog = _prog(ctx, cfg)
         lab = _label(cfg)
         out.append((lab, M.rule_C1(ctx, prog, lab, only=ROWOPS, rule='C1-rowops')))
         out.append((lab, B.rule_B1(ctx, prog, lab, only_funcs={'mzd_write_col_to_rows_blockd', 'mzd_col_swap_in_rows'})))
+        out.append((lab, CT.rule_F4(ctx, prog, lab)))
     return out
 
 
@@ -295,6 +297,8 @@ def c03(ctx):
         prog = _prog(ctx, cfg)
         lab = _label(cfg)
         out.append((lab, B.rule_B1(ctx, prog, lab, only_funcs=PLE_FUNCS)))
+        out.append((lab, CT.rule_F8(ctx, prog, lab)))
+        out.append((lab, CT.rule_F4(ctx, prog, lab)))
         out.append((lab, CT.rule_F1(ctx, prog, lab)))
         out.append((lab, R.rule_E1(ctx, prog, lab, only_funcs=PLE_FUNCS | {'ple_table_init', 'ple_table_free'}, rule='E1-ple')))
     return out
@@ -333,6 +337,7 @@ def c18(ctx):
         lab = _label(cfg)
         out.append((lab, I.rule_I1(ctx, prog, lab)))
         out.append((lab, I.rule_I2(ctx, prog, lab)))
+        out.append((lab, I.rule_I3(ctx, prog, lab)))
         out.append((lab, B.rule_B1(ctx, prog, lab, only_funcs=IO_FUNCS)))
         out.append((lab, R.rule_E1(ctx, prog, lab, only_funcs=IO_FUNCS, rule='E1-io')))
         out.append((lab, NC.rule_E3_third_party(ctx, prog, lab)))
